@@ -185,6 +185,10 @@ def g_attrs(attrs):
     return c_list([c_pair(c_str(n), c_str(f)) for n, f in attrs])
 
 
+def g_seen(l):
+    return c_list(['(%s, %s, %s)' % (c_bool(a), c_bool(b), c_val(v)) for a, b, v in l])
+
+
 def g_plan(plan):
     return c_list([c_pair(c_nat(k), c_nat(n)) for k, n in plan])
 
@@ -275,18 +279,19 @@ def to_coq(case, obs):
             k = o['diverged']
             o = dict(o, bounds=o['bounds'][:k], result=['restore_failed', k, ['user', 'C08-fnrebind']])
         calls = c_list(['(CStep %s)' % c_str(n) if k == 's' else '(CPred %s)' % c_str(n) for k, n in o['calls']])
-        return '(CaseWC (mk_wc %s %s %s %s %s %s %s %s %s %s %s %s %s))' % (
+        return '(CaseWC (mk_wc %s %s %s %s %s %s %s %s %s %s %s %s %s %s %s))' % (
             c09.coq_instr(case['outline']), c_list([c_bool(b) for b in case['preds']]),
             c_list([g_sret(r) for r in case['rets']]), g_plan(case['plan']), c_bool(obs['by_name']), g_attrs(obs['attrs']),
+            c_opt(case.get('inputs'), g_kvs),
             c_list([g_bobs(b) for b in o['bounds']]), g_wres(o['result']), calls, g_kvs(o['ctx']), g_kvs(o['outs']),
-            c_nat(o['pi']), c_nat(o['ri']))
+            c_nat(o['pi']), c_nat(o['ri']), g_seen(o['seen']))
     if kind == 'proc':
         o = obs['run']
-        return '(CaseProc (mk_pc %s %s %s %s %s %s %s %s %s %s))' % (
+        return '(CaseProc (mk_pc %s %s %s %s %s %s %s %s %s %s %s %s))' % (
             g_prog(case['prog']), c_list([c_opt(None if v is None else v[0], c_val) for v in case['resume']]),
-            g_plan(case['plan']), c_bool(obs['keep_kwargs']), g_attrs(obs['attrs']),
+            g_plan(case['plan']), c_bool(obs['keep_kwargs']), g_attrs(obs['attrs']), c_opt(case.get('inputs'), g_kvs),
             c_list([g_pnode(b) for b in o['bounds']]), g_pres(o['result']),
-            c_list([g_tentry(t) for t in o['trace']]), g_kvs(o['ctx']), g_kvs(o['outs']))
+            c_list([g_tentry(t) for t in o['trace']]), g_kvs(o['ctx']), g_kvs(o['outs']), g_seen(o['seen']))
     if kind == 'pay':
         return '(CasePay (mk_pay %s %s %s %s))' % (
             g_attrs(obs['attrs']), g_payload(case['payload']), g_pnode(obs['saved']),
@@ -403,17 +408,27 @@ def user_ctx(proc):
     return [[k, jv(v)] for k, v in proc.ctx.__dict__.items() if not k.startswith('_')]
 
 
+def mk_inputs(case):
+    """None (process created without inputs), {} or a non-empty mapping."""
+    inp = case.get('inputs')
+    return None if inp is None else {k: K._untuple(v) for k, v in inp}
+
+
+def seen_of(proc):
+    return [[bool(a), bool(b), jv(v)] for a, b, v in proc.ctx.__dict__.get('_seen', [[False, False, 'ctx-lost']])]
+
+
 def run_wc_once(case, plan):
     loop = fresh_loop()
     klass = K.build_wc(case['outline'], case.get('override', []))
-    wc = klass(loop=loop, pid=PID)
+    wc = klass(inputs=mk_inputs(case), loop=loop, pid=PID)
     K.init_wc(wc, case['preds'], case['rets'])
     d = drive(wc, loop, plan, case.get('media', ['copy']), True)
     wc, loop, failure = d.proc, d.loop, d.failure
     out = {'bounds': d.bounds, 'idem': d.idem, 'restored': d.restored, 'diverged': d.diverged,
            'calls': wc.ctx.__dict__.get('_trace', [['s', 'ctx-lost']]), 'ctx': user_ctx(wc),
            'outs': [[k, jv(v)] for k, v in wc.outputs.items()], 'pi': wc.ctx.__dict__.get('_pi', 0),
-           'ri': wc.ctx.__dict__.get('_ri', 0),
+           'ri': wc.ctx.__dict__.get('_ri', 0), 'seen': seen_of(wc),
            'state': wc.state.value}
     if failure:
         out['result'] = failure
@@ -432,13 +447,14 @@ def run_proc_once(case, plan):
     loop = fresh_loop()
     names = [n for n, _ in case['prog']]
     klass = K.build_proc(names)
-    p = klass(loop=loop, pid=PID)
+    p = klass(inputs=mk_inputs(case), loop=loop, pid=PID)
     K.init_proc(p, case['prog'])
     d = drive(p, loop, plan, case.get('media', ['copy']), False, resume=case['resume'])
     p, loop, failure = d.proc, d.loop, d.failure
     out = {'bounds': [b['state'] for b in d.bounds], 'idem': d.idem, 'restored': d.restored,
            'trace': [[t[0], jv(t[1]), [[k, jv(v)] for k, v in t[2]]] for t in p.ctx.__dict__.get('_trace', [['ctx-lost', [], []]])],
-           'ctx': user_ctx(p), 'outs': [[k, jv(v)] for k, v in p.outputs.items()], 'state': p.state.value}
+           'ctx': user_ctx(p), 'outs': [[k, jv(v)] for k, v in p.outputs.items()], 'state': p.state.value,
+           'seen': seen_of(p)}
     if failure:
         out['result'] = failure
     elif p.state.value == 'finished':
@@ -496,12 +512,12 @@ def run_impl(case):
     warnings.simplefilter('ignore')
     kind = case['kind']
     if kind == 'wc':
-        key = json.dumps([case['outline'], case['preds'], case['rets'], case.get('override', [])])
+        key = json.dumps([case['outline'], case['preds'], case['rets'], case.get('override', []), case.get('inputs')])
         if key not in _REF:
             _REF[key] = run_wc_once(case, {})
         return {'run': run_wc_once(case, plan_dict(case)), 'ref': _REF[key], 'by_name': by_name(), 'attrs': wc_attrs(case)}
     if kind == 'proc':
-        key = json.dumps([case['prog'], case['resume']])
+        key = json.dumps([case['prog'], case['resume'], case.get('inputs')])
         if key not in _REF:
             _REF[key] = run_proc_once(case, {})
         klass = K.build_proc([n for n, _ in case['prog']])
@@ -636,13 +652,13 @@ def oracle(case, obs):
         if kind == 'proc' and not closed(case):
             return None      # a continuation that is not a method of the process cannot be saved by name at all: by design
         # narrow signature of finding C08-fnrebind: a step function that is not the class attribute carrying its name
-        sig = (lambda s: FNREBIND if (kind == 'wc' and not closed(case)) else s)
+        sig = (lambda s: FNREBIND if (kind == 'wc' and not closed(case) and obs.get('by_name')) else s)
         run, ref = obs['run'], obs['ref']
         if run['result'][0] == 'restore_failed':
             if sig('') == FNREBIND and run['result'][2] != ['py', 'AttributeError']:
                 return {'signature': 'restore_raises', 'kind': 'restore_failed', 'observed': run['result']}
             return {'signature': sig('restore_raises'), 'kind': 'restore_failed', 'observed': run['result']}
-        for key in (('calls',) if kind == 'wc' else ('trace',)) + ('result', 'outs', 'ctx', 'state') + (('pi', 'ri') if kind == 'wc' else ()):
+        for key in (('calls',) if kind == 'wc' else ('trace',)) + ('result', 'outs', 'ctx', 'state', 'seen') + (('pi', 'ri') if kind == 'wc' else ()):
             if run[key] != ref[key]:
                 if key != 'calls' and sig('') == FNREBIND:
                     return {'signature': 'resume_differs', 'kind': key, 'expected': ref[key], 'observed': run[key]}
@@ -690,7 +706,8 @@ def nontrivial(case, obs):
 def distribution(cases, obs):
     d = {'wc': 0, 'proc': 0, 'pay': 0, 'rec': 0, 'restores_total': 0, 'restores_chain3': 0, 'crash_points_3': 0,
          'unsavable_boundaries': 0, 'restore_failed': 0, 'with_while': 0, 'with_if': 0, 'with_return': 0,
-         'finished': 0, 'excepted': 0, 'pickle': 0, 'max_boundaries': 0, 'foreign': 0, 'kwargs_in_continue': 0}
+         'finished': 0, 'excepted': 0, 'pickle': 0, 'max_boundaries': 0, 'foreign': 0, 'kwargs_in_continue': 0,
+         'inputs_none': 0, 'inputs_empty': 0, 'inputs_nonempty': 0, 'inputs_read_after_restore': 0}
     for c, o in zip(cases, obs):
         d[c['kind']] += 1
         if c['kind'] in ('wc', 'proc'):
@@ -705,6 +722,9 @@ def distribution(cases, obs):
             d['pickle'] += 'pickle' in c.get('media', [])
             d['max_boundaries'] = max(d['max_boundaries'], len(run['bounds']))
             d['foreign'] += not closed(c)
+            inp = c.get('inputs')
+            d['inputs_none' if inp is None else ('inputs_nonempty' if inp else 'inputs_empty')] += 1
+            d['inputs_read_after_restore'] += bool(run['restored']) and len(run['seen']) > 0 and run['state'] != 'created'
             s = json.dumps(c.get('outline', c.get('prog')))
             d['with_while'] += '"while"' in s
             d['with_if'] += '"if"' in s
@@ -797,6 +817,17 @@ FOREIGN_PROC = [
 ]
 
 
+# the process is created without inputs, with an empty mapping, with the optional port 'limit' set (also to a falsy
+# value) — the steps record (raw_inputs is None, 'limit' in inputs, inputs.get('limit'))
+INPUT_VARIANTS = [None, [], [['limit', 3]], [['limit', 0], ['tag', 'x']]]
+_ROT = [0]
+
+
+def next_inputs():
+    _ROT[0] += 1
+    return INPUT_VARIANTS[_ROT[0] % len(INPUT_VARIANTS)]
+
+
 def subsets(nb, maxsize):
     pts = list(range(min(8, nb)))
     for r in range(0, maxsize + 1):
@@ -821,7 +852,10 @@ def with_plans(base, rng, maxsize, all_counts, media_choices):
         else:
             count_sets = [[rng.choice([1, 1, 2, 3]) for _ in sub]]
         for counts in count_sets:
-            out.append(dict(base, plan=[[k, n] for k, n in zip(sub, counts)], media=rng.choice(media_choices)))
+            c = dict(base, plan=[[k, n] for k, n in zip(sub, counts)], media=rng.choice(media_choices))
+            if 'inputs' not in c:
+                c['inputs'] = next_inputs()
+            out.append(c)
     return out
 
 
@@ -936,6 +970,7 @@ def small_outlines(max_size):
 
 def generate(tier, rng, around=None):
     cases = []
+    _ROT[0] = 0
     thorough = tier == 'thorough'
     media_choices = [['copy'], ['pickle'], ['copy', 'pickle'], ['pickle', 'copy']]
     if tier == 'widen':
@@ -977,7 +1012,8 @@ def generate(tier, rng, around=None):
         nb = n_boundaries(dict(base, plan=[]))
         for _ in range(6 if thorough else 3):
             pts = sorted(rng.sample(range(min(8, nb)), min(rng.randint(1, 3), min(8, nb))))
-            cases.append(dict(base, plan=[[k, rng.randint(1, 3)] for k in pts], media=rng.choice(media_choices)))
+            cases.append(dict(base, plan=[[k, rng.randint(1, 3)] for k in pts], media=rng.choice(media_choices),
+                              inputs=next_inputs()))
     # 4. state payloads and recreate_stepper on saved trees
     if tier != 'widen':
         cases += payload_cases()
